@@ -95,6 +95,27 @@ def strip_lean_comments(text):
     return ''.join(out)
 
 
+def import_closure(modules):
+    """paths of all project-local Lean files (GIVerif.*, Driver.*) reachable through `import` from the
+    given modules"""
+    seen = {}
+    todo = list(modules)
+    while todo:
+        m = todo.pop()
+        if m in seen:
+            continue
+        path = os.path.join(LEAN_DIR, m.replace('.', '/') + '.lean')
+        if not os.path.exists(path):
+            continue
+        seen[m] = path
+        with open(path, encoding='utf-8') as f:
+            for line in f:
+                mm = re.match(r'\s*(?:public\s+)?import\s+((?:GIVerif|Driver)\.[A-Za-z0-9_.]+)', line)
+                if mm:
+                    todo.append(mm.group(1))
+    return set(seen.values())
+
+
 class Driver(object):
     """The compiled Lean model driver: one JSON object per line in, one per line out."""
 
@@ -240,15 +261,13 @@ class Ctx(object):
                 failing = sorted(set('%s:%s' % (f, l) for f, l, _ in errs))
                 self.broken.append('proof obligations no longer check (lake build %s): %s'
                                    % (' '.join(modules), ', '.join(failing[:10]) or log[-400:]))
-            # forbidden constructs in every non-generated source of the library
-            for root, _d, files in os.walk(os.path.join(LEAN_DIR, 'GIVerif')):
-                for fn in files:
-                    if fn.endswith('.lean'):
-                        path = os.path.join(root, fn)
-                        with open(path, encoding='utf-8') as f:
-                            body = strip_lean_comments(f.read())
-                        for m in FORBIDDEN.finditer(body):
-                            res['forbidden'].append('%s: %s' % (os.path.relpath(path, LEAN_DIR), m.group(0).strip()))
+            # forbidden constructs in every source file this property's theorems depend on
+            # (the import closure of the Props module inside the project)
+            for path in sorted(import_closure(list(modules) + [props_module])):
+                with open(path, encoding='utf-8') as f:
+                    body = strip_lean_comments(f.read())
+                for m in FORBIDDEN.finditer(body):
+                    res['forbidden'].append('%s: %s' % (os.path.relpath(path, LEAN_DIR), m.group(0).strip()))
             if res['forbidden']:
                 self.broken.append('forbidden constructs in Lean sources: %s' % res['forbidden'][:5])
             # theorem names of the Props module
